@@ -321,7 +321,9 @@ def design_flat_parent(r, name):
         fields.append(("dup", f"#[map(b{dup_to})] pub dup: i64"))
     r.shuffle(fields)
     if use_vars:
-        item = f"#[{pre}from(A{err})] #[{pre}into(A{err} | vars(v0: {{ 5 }}, v1: {{ v0 * 2 }}))] #[{pre}into_existing(A{err} | vars(v0: {{ 5 }}, v1: {{ v0 * 2 }}))] #[ghosts(g: {{ v1 + 1 }})] pub struct S {{ " + ", ".join(src for _, src in fields) + " }"
+        # an inner attribute must stay the first thing in the body, in front of the `vars` bindings
+        ia = ", inner_attribute(allow(unused_variables))" if r.random() < 0.5 else ""
+        item = f"#[{pre}from(A{err})] #[{pre}into(A{err} | vars(v0: {{ 5 }}, v1: {{ v0 * 2 }}){ia})] #[{pre}into_existing(A{err} | vars(v0: {{ 5 }}, v1: {{ v0 * 2 }}){ia})] #[ghosts(g: {{ v1 + 1 }})] pub struct S {{ " + ", ".join(src for _, src in fields) + " }"
     else:
         ia = " | inner_attribute(allow(unused_variables))" if r.random() < 0.4 else ""
         fa = " | attribute(inline)" if r.random() < 0.3 else ""
@@ -611,6 +613,28 @@ def design_pparent(r, name):
     m = Module(name, "tree")
     counter = [0]
     types = []
+    # how a renamed leaf is written: one `[map(x)]`, or one instruction per direction (`[from(x)] [into(x)]
+    # [into_existing(x)]`), where the struct may have no plain `into` at all — then the IntoExisting flavours, owned and by
+    # reference, have only the `[into_existing(x)]` spelling to go by
+    split = r.random() < 0.4
+    has_into = (not split) or r.random() < 0.6
+    with_existing = True if split else r.random() < 0.6
+
+    deltas = {}   # flat name -> (added by the owned Into flavours, added by the by-reference ones)
+
+    def rename(flat):
+        if not split:
+            return f"[map({flat})] "
+        if r.random() < 0.35:
+            # one instruction per ownership: IntoExisting has none of its own and goes by the Into instruction of the
+            # same ownership (owned with owned, by-reference with by-reference)
+            deltas[flat] = (1000, 2000)
+            parts = [f"[from({flat})]", f"[owned_into({flat}, ~ + 1000)]", f"[ref_into({flat}, ~ + 2000)]"]
+            r.shuffle(parts)
+            return " ".join(parts) + " "
+        parts = [f"[from({flat})]"] + ([f"[into({flat})]"] if has_into else []) + [r.choice([f"[into_existing({flat})]", f"[owned_into_existing({flat})] [ref_into_existing({flat})]"])]
+        r.shuffle(parts)
+        return " ".join(parts) + " "
 
     def build(tyname, depth):
         """returns (entries text, rust fields, leaves [(path list, flat name)])"""
@@ -628,7 +652,7 @@ def design_pparent(r, name):
                 nm = f"l{k}"
                 ren = r.random() < 0.4
                 flat = f"x{k}" if ren else nm
-                entries.append((f"[map({flat})] " if ren else "") + nm)
+                entries.append((rename(flat) if ren else "") + nm)
                 fields.append(f"pub {nm}: i64")
                 leaves.append(([nm], flat))
             else:
@@ -643,8 +667,7 @@ def design_pparent(r, name):
     types.append(f"{DERIVES} pub struct Base {{ " + ", ".join(bfields) + " }")
     m.types += types
     m.types.append(f"{DERIVES} pub struct A {{ " + ", ".join(f"pub {flat}: i64" for _, flat in leaves) + ", pub own: i64 }")
-    with_existing = r.random() < 0.6
-    attrs = ["#[map(A)]"] + (["#[into_existing(A)]"] if with_existing else [])
+    attrs = (["#[map(A)]"] if has_into else ["#[from(A)]"]) + (["#[into_existing(A)]"] if with_existing else [])
     sf = [f"#[parent({', '.join(entries)})] pub base: Base", "pub own: i64"]
     r.shuffle(sf)
     item = " ".join(attrs) + " pub struct S { " + ", ".join(sf) + " }"
@@ -676,16 +699,18 @@ def design_pparent(r, name):
                 fs.append(("own", own))
         return ("named", "S", fs)
     exp_s = s_val({tuple(pth): a_in[flat] for pth, flat in leaves}, 5)
-    exp_a = a_val({flat: s_in[tuple(pth)] for pth, flat in leaves}, 6)
+    exp_a = a_val({flat: s_in[tuple(pth)] + deltas.get(flat, (0, 0))[0] for pth, flat in leaves}, 6)
+    exp_a_ref = a_val({flat: s_in[tuple(pth)] + deltas.get(flat, (0, 0))[1] for pth, flat in leaves}, 6)
     a_lit, s_lit = lit(a_val(a_in, 5)), lit(s_val(s_in, 6))
     pre_exist = a_val({flat: 9000 + i for i, (_, flat) in enumerate(leaves)}, 9100)
     m.tests.append(("from_owned", f'let a = {a_lit}; let r = S::from(a); println!("{name} from_owned {{:?}}", r);', dbg(exp_s)))
     m.tests.append(("from_ref", f'let a = {a_lit}; let r = S::from(&a); println!("{name} from_ref {{:?}}", r);', dbg(exp_s)))
-    m.tests.append(("into_owned", f'let s = {s_lit}; let r: A = s.into(); println!("{name} into_owned {{:?}}", r);', dbg(exp_a)))
-    m.tests.append(("into_ref", f'let s = {s_lit}; let r: A = (&s).into(); println!("{name} into_ref {{:?}}", r);', dbg(exp_a)))
+    if has_into:
+        m.tests.append(("into_owned", f'let s = {s_lit}; let r: A = s.into(); println!("{name} into_owned {{:?}}", r);', dbg(exp_a)))
+        m.tests.append(("into_ref", f'let s = {s_lit}; let r: A = (&s).into(); println!("{name} into_ref {{:?}}", r);', dbg(exp_a_ref)))
     if with_existing:
         m.tests.append(("existing_owned", f'let s = {s_lit}; let mut o = {lit(pre_exist)}; s.into_existing(&mut o); println!("{name} existing_owned {{:?}}", o);', dbg(exp_a)))
-        m.tests.append(("existing_ref", f'let s = {s_lit}; let mut o = {lit(pre_exist)}; (&s).into_existing(&mut o); println!("{name} existing_ref {{:?}}", o);', dbg(exp_a)))
+        m.tests.append(("existing_ref", f'let s = {s_lit}; let mut o = {lit(pre_exist)}; (&s).into_existing(&mut o); println!("{name} existing_ref {{:?}}", o);', dbg(exp_a_ref)))
     return m
 
 
@@ -702,11 +727,14 @@ def design_enum(r, name):
     nv = r.randrange(1, 5)
     variants = []
     for k in range(nv):
-        shape = r.choice(["unit", "unit", "tuple", "named"])
+        shape = r.choice(["unit", "unit", "tuple", "named", "hinted"])
         nf = 0 if shape == "unit" else r.randrange(1, 3)
         ren = r.random() < 0.3
         variants.append({"k": k, "shape": shape, "nf": nf, "sname": f"V{k}", "aname": (f"W{k}" if ren else f"V{k}"), "ren": ren,
-                         "fren": [r.random() < 0.3 and shape == "named" for _ in range(nf)]})
+                         "fren": [r.random() < 0.3 and shape == "named" for _ in range(nf)],
+                         # `hinted`: a positional variant against a named one (`#[type_hint(as {})]`), every payload member names
+                         # its counterpart member; a ghost payload member may sit at any position, the first included
+                         "gpos": (r.choice([None] + list(range(nf + 1))) if shape == "hinted" else None)})
     fallible = r.random() < 0.25
     pre = "try_" if fallible else ""
     err = ", String" if fallible else ""
@@ -723,10 +751,20 @@ def design_enum(r, name):
                 r.shuffle(v["perm"])
                 v["mul"] = [r.choice([None, None, 2, 3]) for _ in range(v["nf"])]
 
+    def hinted_slots(v):
+        slots = [("m", j) for j in range(v["nf"])]
+        if v["gpos"] is not None:
+            slots.insert(v["gpos"], ("g", None))
+        return slots
+
     def vdecl(v, side):
         nm = v["sname"] if side == "s" else v["aname"]
         if v["shape"] == "unit":
             return nm
+        if v["shape"] == "hinted":
+            if side == "a":
+                return nm + " { " + ", ".join(f"x{j}: i64" for j in range(v["nf"])) + " }"
+            return "#[type_hint(as {})] " + nm + "(" + ", ".join(("#[ghost({ -1 })] i64" if kind == "g" else f"#[map(x{j})] i64") for kind, j in hinted_slots(v)) + ")"
         if v["shape"] == "tuple" and side == "s" and v.get("perm"):
             return nm + "(" + ", ".join((f"#[from({v['perm'][i]}, ~ * {v['mul'][i]})] " if v["mul"][i] else f"#[from({v['perm'][i]})] ") + "i64" for i in range(v["nf"])) + ")"
         if v["shape"] == "tuple":
@@ -746,6 +784,10 @@ def design_enum(r, name):
         ty = ("S" if side == "s" else "A") + "::" + (v["sname"] if side == "s" else v["aname"])
         if v["shape"] == "unit":
             return ("unit", ty)
+        if v["shape"] == "hinted":
+            if side == "a":
+                return ("named", ty, [(f"x{j}", base + j) for j in range(v["nf"])])
+            return ("tuple", ty, [(-1 if kind == "g" else base + j) for kind, j in hinted_slots(v)])
         if v["shape"] == "tuple":
             return ("tuple", ty, [base + i for i in range(v["nf"])])
         return ("named", ty, [((f"p{i}" if side == "s" or not v["fren"][i] else f"q{i}"), base + i) for i in range(v["nf"])])
@@ -838,7 +880,7 @@ def design_prim(r, name):
 def design_flat7(r, name):
     """the mix used for C07: more #[parent] programs (all six flavours of one mapping side by side)"""
     t = r.random()
-    return design_flat_perm(r, name) if t < 0.1 else design_flat_parent(r, name) if t < 0.55 else design_flat(r, name)
+    return design_flat_perm(r, name) if t < 0.1 else design_flat_parent(r, name) if t < 0.45 else design_pparent(r, name) if t < 0.65 else design_flat(r, name)
 
 
 def design_subst(r, name):
